@@ -30,6 +30,7 @@ LEVEL_TEXT = ("Exploration by generated programs with the library's own evaluato
               "point, and evaluate identically on the generating document and a 14-document panel, with filter contexts. All "
               "filter skeletons of depth <= 3 over {!, &&, ||, parentheses, ==} with three atoms, numeric and string literal "
               "spellings, regex flag subsets and compound structures are enumerated.")
+LEVEL_TEXT += ' Also: float literals (Hypothesis floats in three spellings) against themselves and both neighbouring doubles; indices / bounds / literals spelled with non-ASCII digits; the thorough tier adds an atheris campaign with the same round-trip oracle.'
 BUDGET_S = {"quick": 75, "thorough": 600}
 RULE = ("(a) standard ASTs in every spelling, (b) extension ASTs (fake root, keys, #, _, in/contains, regex flags, list literals, "
         "undefined, compound | and &), (c) accepted strings from C06's token soup / mutation generators. Non-trivial = the filter "
